@@ -1308,7 +1308,9 @@ class Store:
                 process_updates.append((
                     process_path, process.value))
 
-        self._delete_path(source_path)
+        # detach the source without stopping its parallel processes:
+        # they carry on under the target
+        del self.get_path(source_path[:-1]).inner[source_path[-1]]
 
         here = self.path_for()
         source_absolute = tuple(here + source_path)
